@@ -425,7 +425,12 @@ func (w *World) originate() bool {
 	id := ids[r.Choice("orig.if", len(ids))]
 	a.cur = []*ifstate.Interface{a.IfState.Get(id)}
 	r.Logf("originate %s#%d", a.IA, id)
+	w.inOriginate = true
 	a.Orig.Run(w.ctx)
+	w.inOriginate = false
+	if w.infra != "" {
+		panic(core.InfraError{Msg: w.infra})
+	}
 	return true
 }
 
